@@ -1,10 +1,9 @@
 /-
 Model of the template evaluator: `mwlib/parser/templ/evaluate.pyx` (`flatten` with the
 recursion counter, `ArgumentList.get`, `insert_implicit_newlines`, `Expander._expand`) and
-`nodes.pyx` (`Template`, `Variable`, `IfNode`, base `Node`).  The parser
+`nodes.pyx` (`Template`, `Variable`, `IfNode`, `IfEqNode`, `SwitchNode`, base `Node`).  The parser
 (`templ/parser.py`) is not modelled: the harness hands the *real* parse trees of the page
-and of every template to this model.  Magic words, parser functions other than `#if`, and
-`#switch` are outside (`Node.opaque`; the correspondence stream does not generate them).
+and of every template to this model.  Magic words and parser functions other than `#if`, `#ifeq`, `#switch` are outside (`Node.opaque`; the correspondence stream does not generate them).
 Core Lean only.
 -/
 namespace MwVerif.Templ
@@ -18,6 +17,8 @@ inductive Node where
   | template (name : Node) (args : List Node)
   | variable (name : Node) (dflt : Option Node)
   | ifNode (args : List Node)
+  | ifeqNode (args : List Node)
+  | switchNode (value : Node) (cases : List Node)
   | opaque                                    -- anything the model does not cover
   deriving Repr, Inhabited
 
@@ -100,6 +101,81 @@ def equalSplit : Node → Option (List Node) × Node
 
 def natToStr (n : Nat) : Str := (toString n).toList
 
+/-! ### numbers (`maybe_numeric`, restricted to plain decimal literals) -/
+
+def isDigit (c : Char) : Bool := '0' ≤ c && c ≤ '9'
+
+def digitsVal (ds : Str) : Nat := ds.foldl (fun a c => a * 10 + (c.toNat - '0'.toNat)) 0
+
+/-- drop trailing zeros of the fraction digits. -/
+def trimZeros (ds : Str) : Str := (ds.reverse.dropWhile (· = '0')).reverse
+
+/-- `[+-]? digits [. digits*]` or `[+-]? . digits+` as (mantissa, scale): value = m / 10^scale,
+normalised (no trailing fraction zeros), so equal values have equal representations.
+Exponents, `inf`/`nan`, underscores and non-ASCII digits are *not* recognised (Python's
+`int`/`float` accept them; the correspondence stream keeps clear of them). -/
+def parseNum (s : Str) : Option (Int × Nat) :=
+  let (neg, body) := match s with
+    | '-' :: r => (true, r)
+    | '+' :: r => (false, r)
+    | r => (false, r)
+  let ip := body.takeWhile isDigit
+  let rest := body.dropWhile isDigit
+  let mk (fr : Str) : Option (Int × Nat) :=
+    let fr := trimZeros fr
+    let m : Int := Int.ofNat (digitsVal (ip ++ fr))
+    some (if neg then -m else m, fr.length)
+  match rest with
+  | [] => if ip.isEmpty then none else mk []
+  | '.' :: fr => if fr.all isDigit && !(ip.isEmpty && fr.isEmpty) then mk fr else none
+  | _ => none
+
+/-- `maybe_numeric_compare` / the comparison of `#switch`. -/
+def numEq (a b : Str) : Bool :=
+  match parseNum a, parseNum b with
+  | some x, some y => x == y
+  | _, _ => false
+
+def sameValue (a b : Str) : Bool := a == b || numEq a b
+
+/-! ### `#switch` case list -/
+
+/-- the string a key is when all its parts are plain strings (a "fast" key). -/
+def staticParts : List Node → Option Str
+  | [] => some []
+  | .text s :: rest => (staticParts rest).map (s ++ ·)
+  | _ => none
+
+def staticKey : Node → Option Str
+  | .text s => some s
+  | .seq xs => staticParts xs
+  | _ => none
+
+/-- `SwitchNode._init`: (key, value) pairs in source order, a run of key-less arguments
+falling through to the next keyed value; the second component is what is left pending at the
+end (its last element is the implicit default). -/
+def switchPairs : List Node → List Node → List (Node × Node) × List Node
+  | [], pending => ([], pending)
+  | a :: rest, pending =>
+    match equalSplit a with
+    | (none, v) => switchPairs rest (pending ++ [v])
+    | (some kparts, v) =>
+      let (ps, pend) := switchPairs rest []
+      (pending.map (fun k => (k, v)) ++ (.seq kparts, v) :: ps, pend)
+
+def defaultKey : Str := "#default".toList
+
+/-- the value of the first case whose *static* key is `#default`, else the last pending one. -/
+def switchDefault (pairs : List (Node × Node)) (pending : List Node) : Option Node :=
+  match pairs.find? (fun kv => (staticKey kv.1).map strip == some defaultKey) with
+  | some kv => some kv.2
+  | none => pending.getLast?
+
+def nodeFalsy : Node → Bool
+  | .text [] => true
+  | .seq [] => true
+  | _ => false
+
 mutual
   /-- `flatten(node, expander, variables, res)`; `fuel` bounds the nesting (`limit + 2 - count`
   is always enough), `count` is `expander.recursion_count`. Returns the pieces appended. -/
@@ -147,6 +223,46 @@ mutual
             match flatten cfg fuel count b env with
             | .error e => .error e
             | .ok bps => .ok [.maybeNl, .str (strip (joinPieces (insertNewlines bps))), .mark]
+    | fuel, count, .ifeqNode args, env =>
+      match args with
+      | [] => .error .opaque
+      | a :: rest =>
+        match flatten cfg fuel count a env with
+        | .error e => .error e
+        | .ok aps =>
+          match (match rest.head? with
+                 | some b => flatten cfg fuel count b env
+                 | none => .ok []) with
+          | .error e => .error e
+          | .ok bps =>
+            let branch := if sameValue (strip (joinPieces aps)) (strip (joinPieces bps))
+              then (rest.drop 1).head? else (rest.drop 2).head?
+            match branch with
+            | none => .ok [.maybeNl, .str [], .mark]
+            | some b =>
+              match flatten cfg fuel count b env with
+              | .error e => .error e
+              | .ok rps => .ok [.maybeNl, .str (strip (joinPieces (insertNewlines rps))), .mark]
+    | fuel, count, .switchNode value cases, env =>
+      match flatten cfg fuel count value env with
+      | .error e => .error e
+      | .ok vps =>
+        let val := strip (joinPieces vps)
+        let (pairs, pending) := switchPairs cases []
+        match switchScan cfg fuel count pairs env val with
+        | .error e => .error e
+        | .ok found =>
+          let chosen := match found with
+            | some v => some v
+            | none => switchDefault pairs pending
+          match chosen with
+          | none => .ok [.maybeNl, .str [], .mark]
+          | some r =>
+            if nodeFalsy r then .ok [.maybeNl, .str [], .mark]
+            else
+              match flatten cfg fuel count r env with
+              | .error e => .error e
+              | .ok rps => .ok [.maybeNl, .str (strip (joinPieces (insertNewlines rps))), .mark]
     | fuel, count, .template name args, env =>
       match flatten cfg fuel count name env with
       | .error e => .error e
@@ -174,6 +290,21 @@ mutual
         | .error e => .error e
         | .ok qs => .ok (ps ++ qs)
   termination_by fuel _ xs _ => (fuel, 1, xs.length)
+  /-- the first case, in source order, whose key has the value `val` (as a string or as a
+  number); computed keys are evaluated on the way. -/
+  def switchScan (cfg : Cfg) : Nat → Nat → List (Node × Node) → Env → Str → Except Err (Option Node)
+    | _, _, [], _, _ => .ok none
+    | fuel, count, (k, v) :: rest, env, val =>
+      match staticKey k with
+      | some ks =>
+        if sameValue (strip ks) val then .ok (some v) else switchScan cfg fuel count rest env val
+      | none =>
+        match flatten cfg fuel count k env with
+        | .error e => .error e
+        | .ok kps =>
+          if sameValue (strip (joinPieces kps)) val then .ok (some v)
+          else switchScan cfg fuel count rest env val
+  termination_by fuel _ ps _ _ => (fuel, 2, ps.length)
   /-- `variables.get(name, None)` for a string key: every argument is named (positional ones
   "1", "2", …, counted over the positional ones only); the *last* argument whose name is `n`
   is the value. -/
